@@ -213,6 +213,20 @@ fn c16_relative_join_over_255() -> bool {
     r.is_none()
 }
 
+/// C14: `#` starts a comment wherever it appears: a name directly followed by a comment is still mapped.
+fn c14_name_directly_followed_by_comment() -> bool {
+    use dns_types::hosts::types::Hosts;
+    let text = "1.2.3.4 foo#a comment\n";
+    let r = Hosts::deserialise(text);
+    println!("input: hosts file {text:?}");
+    println!("required: foo. -> 1.2.3.4 (hosts(5): text from a `#` to the end of the line is a comment)");
+    match &r {
+        Ok(h) => println!("observed: {} IPv4 mapping(s): {:?}", h.v4.len(), h.v4.iter().map(|(k, v)| format!("{} -> {v}", k.to_dotted_string())).collect::<Vec<_>>()),
+        Err(e) => println!("observed: Err({e:?})"),
+    }
+    matches!(r, Ok(h) if h.v4.get(&dn("foo.")) == Some(&std::net::Ipv4Addr::new(1, 2, 3, 4)))
+}
+
 /// C03: the decoder accepts exactly the well-formed messages: a root question followed by one 11-octet record (root owner, empty RDATA)
 /// is well-formed - this is what `dig +edns . NS` sends - and must be accepted.
 fn c03_minimal_records_accepted() -> bool {
@@ -293,6 +307,7 @@ fn main() {
         "c03_pointer_into_own_name" => c03_pointer_into_own_name(),
         "c03_minimal_records_accepted" => c03_minimal_records_accepted(),
         "c16_relative_join_over_255" => c16_relative_join_over_255(),
+        "c14_name_directly_followed_by_comment" => c14_name_directly_followed_by_comment(),
         "c12_wildcard_only_node_merge" => c12_wildcard_only_node_merge(),
         _ => {
             eprintln!("unknown witness `{w}`");
